@@ -12,6 +12,7 @@ import (
 	"fmt"
 	"net/http"
 	"net/http/httptest"
+	"strings"
 	"testing"
 	"time"
 
@@ -27,6 +28,36 @@ type c01HTTP struct {
 	mode   int // 0 WriteHeader, 1 WriteHeader+body, 2 body only (implicit 200), 3 nothing (implicit 200)
 	ran    int
 	panicV any // when non-nil the handler panics with it after writing
+	// multi-header shape (mode 4): bodyFirst writes a body before any header (implicit 200),
+	// then every code of seq is passed to WriteHeader in order
+	seq       []int
+	bodyFirst bool
+}
+
+// c01ClientStatus is the status a client receives for a multi-header shape under
+// net/http's rules: 1xx headers are informational, the first status >= 200 is
+// final (later WriteHeader calls are superfluous), a body before any final header means 200.
+func c01ClientStatus(bodyFirst bool, seq []int) int {
+	if bodyFirst {
+		return 200
+	}
+	for _, c := range seq {
+		if c >= 200 {
+			return c
+		}
+	}
+	return 200
+}
+
+func c01ShapeName(bodyFirst bool, seq []int) string {
+	var parts []string
+	if bodyFirst {
+		parts = append(parts, "body")
+	}
+	for _, c := range seq {
+		parts = append(parts, fmt.Sprint(c))
+	}
+	return strings.Join(parts, "+")
 }
 
 func c01NewHTTP(metrics *stat.Metrics, tag string) *c01HTTP {
@@ -44,6 +75,13 @@ func c01NewHTTP(metrics *stat.Metrics, tag string) *c01HTTP {
 			}
 		case 2:
 			_, _ = w.Write([]byte("implicit"))
+		case 4:
+			if c.bodyFirst {
+				_, _ = w.Write([]byte("early body"))
+			}
+			for _, code := range c.seq {
+				w.WriteHeader(code)
+			}
 		}
 		if c.panicV != nil {
 			panic(c.panicV)
@@ -73,7 +111,7 @@ func c01StatusClass(s int) string {
 }
 
 func TestVerifC01HTTPBenignTable(t *testing.T) {
-	m := vk.New(t, "C01", "BreakerHandler + httptest recorder, virtual clock frozen: every status 100-499 (and implicit 200) alone x150 requests on a fresh breaker => 0 dropped; 10000 mixed benign statuses on one breaker => 0 dropped; every status 500-599 alone x400 requests => at least one request dropped, every drop answers 503 without running the handler; handler writes 5xx and then panics (panic recovered by the harness) x400 => at least one request dropped; non-trivial = row whose breaker dropped something")
+	m := vk.New(t, "C01", "BreakerHandler + httptest recorder, virtual clock frozen: every status 100-499 (and implicit 200) alone x150 requests on a fresh breaker => 0 dropped; 10000 mixed benign statuses on one breaker => 0 dropped; every status 500-599 alone x400 requests => at least one request dropped, every drop answers 503 without running the handler; handler writes 5xx and then panics (panic recovered by the harness) x400 => at least one request dropped; multi-header handlers (1xx informational headers before the final status, superfluous second WriteHeader of the same class, body before header) classified by the status the client receives: benign x150 => 0 dropped, failing x400 => at least one dropped; non-trivial = row whose breaker dropped something")
 	defer m.Done()
 	logx.Disable()
 	stat.SetReporter(nil)
@@ -199,6 +237,96 @@ func TestVerifC01HTTPBenignTable(t *testing.T) {
 		if s%25 == 0 {
 			m.Sample(map[string]any{"scenario": fmt.Sprintf("status %d x%d", s, perBad), "dropped": drops, "first_drop_at_request": firstDrop})
 		}
+	}
+	// ---- handlers that write more than one header, classified by the status the client receives.
+	// Asserted only where that status and every other reading agree on the class: 1xx informational
+	// headers before the final status, and a superfluous second WriteHeader of the SAME class.
+	type c01Shape struct {
+		bodyFirst bool
+		seq       []int
+	}
+	shapeCall := func(c *c01HTTP, sh c01Shape) (bool, int) {
+		c.seq, c.bodyFirst = sh.seq, sh.bodyFirst
+		return c.call(0, 4)
+	}
+	benignShapes := []c01Shape{
+		{false, []int{103, 200}}, {false, []int{100, 103, 404}}, {false, []int{102, 499}}, {false, []int{103, 103, 301}},
+		{false, []int{200, 404}}, {false, []int{204, 200}}, {true, []int{404}}, {true, nil},
+	}
+	failingShapes := []c01Shape{
+		{false, []int{103, 500}}, {false, []int{100, 103, 502}}, {false, []int{102, 599}}, {false, []int{103, 103, 503}},
+		{false, []int{500, 503}}, {false, []int{503, 500}},
+	}
+	for i, sh := range benignShapes {
+		name := c01ShapeName(sh.bodyFirst, sh.seq)
+		c := c01NewHTTP(metrics, "shape-b-"+name)
+		desc := fmt.Sprintf("case=%d;handler writes %s (client receives %d) x%d on a fresh BreakerHandler", 1100+i, name, c01ClientStatus(sh.bodyFirst, sh.seq), perBenign)
+		okRow := true
+		for k := 0; k < perBenign; k++ {
+			ran, code := shapeCall(c, sh)
+			m.Count("requests_multi_header_benign", 1)
+			if !ran {
+				m.Violate("C01:benign:http:multi-header:"+name+":dropped", desc, "request #%d was dropped (recorded %d) although every response so far reached the client with status %d", k, code, c01ClientStatus(sh.bodyFirst, sh.seq))
+				okRow = false
+				break
+			}
+		}
+		m.Case("multi-header-benign-"+name, okRow)
+	}
+	for i, sh := range failingShapes {
+		name := c01ShapeName(sh.bodyFirst, sh.seq)
+		c := c01NewHTTP(metrics, "shape-f-"+name)
+		final := c01ClientStatus(sh.bodyFirst, sh.seq)
+		desc := fmt.Sprintf("case=%d;handler writes %s (client receives %d) x%d on a fresh BreakerHandler", 1200+i, name, final, perBad)
+		drops := 0
+		bad := false
+		for k := 0; k < perBad; k++ {
+			ran, code := shapeCall(c, sh)
+			m.Count("requests_multi_header_failing", 1)
+			if !ran {
+				drops++
+				if code != http.StatusServiceUnavailable {
+					m.Violate("C01:reject:http:wrong-status", desc, "dropped request #%d was answered %d, want 503", k, code)
+					bad = true
+					break
+				}
+			}
+		}
+		m.Count("requests_dropped_multi_header", int64(drops))
+		if !bad && drops == 0 {
+			m.Violate("C01:nonbenign:http:multi-header:"+name+":never-cut-off", desc, "%d consecutive responses that reach the client with status %d (handler wrote %s) and not a single request was dropped: the informational/earlier header was taken for the outcome", perBad, final, name)
+		}
+		m.Case("multi-header-failing-"+name, drops > 0)
+		if i == 0 {
+			m.Sample(map[string]any{"scenario": fmt.Sprintf("handler writes %s x%d", name, perBad), "client_status": final, "dropped": drops})
+		}
+	}
+	// mixed multi-header benign shapes into one breaker
+	{
+		c := c01NewHTTP(metrics, "shape-mixed")
+		for k := 0; k < vk.N(5000, 50000); k++ {
+			sh := benignShapes[r.Intn(len(benignShapes))]
+			ran, code := shapeCall(c, sh)
+			m.Count("requests_multi_header_benign", 1)
+			if !ran {
+				m.Violate("C01:benign:http:multi-header:mixed:dropped", "case=1190;mixed benign multi-header shapes on one BreakerHandler", "request #%d (%s) was dropped (recorded %d)", k, c01ShapeName(sh.bodyFirst, sh.seq), code)
+				break
+			}
+		}
+		m.Case("multi-header-mixed-benign", true)
+	}
+	// NOT asserted (the statement leaves it open which status a handler that misuses WriteHeader "answered"):
+	// a superfluous second WriteHeader / a late WriteHeader after the body, of the OTHER class.
+	for _, sh := range []c01Shape{{false, []int{200, 500}}, {false, []int{500, 200}}, {true, []int{500}}} {
+		name := c01ShapeName(sh.bodyFirst, sh.seq)
+		c := c01NewHTTP(metrics, "shape-open-"+name)
+		drops := 0
+		for k := 0; k < perBad; k++ {
+			if ran, _ := shapeCall(c, sh); !ran {
+				drops++
+			}
+		}
+		m.Note("not asserted: handler writes %s (client receives %d) x%d => %d requests dropped", name, c01ClientStatus(sh.bodyFirst, sh.seq), perBad, drops)
 	}
 	// ---- a handler that answers 5xx and then panics keeps failing: it must be cut off too
 	// (status >= 500 is not benign and a panic is a failure: either way one failure per admitted request)
